@@ -24,9 +24,9 @@ def run(tier):
         return {tag + "nrel": nrel, tag + "pre": pre, tag + "post": post, tag + "dev": dev, tag + "local": local,
                 tag + "epoch": epoch, tag + "v": v, tag + "prespell": spell}
     if q:
-        forms = [(2, 0, 0, 0, 0), (2, 1, 0, 0, 0), (3, 3, 0, 0, 0), (2, 0, 1, 0, 0), (2, 0, 0, 1, 0), (2, 2, 0, 1, 0), (2, 0, 2, 1, 0), (1, 0, 0, 0, 1), (2, 0, 0, 0, 2), (2, 1, 1, 0, 0), (2, 0, 1, 0, 1)]
+        forms = [(2, 0, 0, 0, 0), (2, 1, 0, 0, 0), (3, 3, 0, 0, 0), (2, 0, 1, 0, 0), (2, 0, 0, 1, 0), (2, 2, 0, 1, 0), (2, 0, 2, 1, 0), (1, 0, 0, 0, 1), (2, 0, 0, 0, 2), (2, 1, 1, 0, 0), (2, 0, 1, 0, 1), (4, 0, 0, 0, 0), (4, 3, 1, 0, 0)]
     else:
-        forms = [(n, pre, post, dev, loc) for n in (1, 2, 3) for pre in (0, 1, 2, 3) for post in (0, 1, 2, 3) for dev in (0, 1, 2) for loc in (0, 1, 2)]
+        forms = [(n, pre, post, dev, loc) for n in (1, 2, 3, 4) for pre in (0, 1, 2, 3) for post in (0, 1, 2, 3) for dev in (0, 1, 2) for loc in (0, 1, 2)]
         forms = forms[::3]
     for fa, fb in itertools.product(forms, repeat=2):
         for spell in ([0, 1] if q else [0, 1, 2, 3]):
@@ -38,4 +38,4 @@ def run(tier):
                         required_covers=["reference says less", "reference says equal"],
                         assumptions=["oracles are transcriptions of SemVer 2.0 §11 (npm, Cargo, Go), NuGet SemVer2 and packaging's _cmpkey (PyPI) over template fields; the real tools are not run",
                                      "Maven (ComparableVersion) and RubyGems (Gem::Version) orderings are not decided: no transcription was built for them"],
-                        bounds={"semver": "3 components, <=2 prerelease identifiers of <=%d bytes" % (2 if q else 3), "pypi": "release <=3 single-digit components, single-digit numbers, one local segment"})
+                        bounds={"semver": "3 components, <=2 prerelease identifiers of <=%d bytes" % (2 if q else 3), "pypi": "release <=4 single-digit components, single-digit numbers, one local segment"})
